@@ -67,7 +67,13 @@ fn run() {
             let arg: usize = op[1].parse().unwrap();
             if op[0] == "init" {
                 n = arg;
-                let defs: Vec<(usize, &str, &str)> = (0..n).map(|e| (e, "btc", "usdt")).collect();
+                // exchange label e carries (e % 3) + 1 instruments with different bases, so that instrument
+                // indices, asset indices, exchange indices and labels never coincide by accident (with 5
+                // exchanges the index order - ExchangeId order - also differs from the label order)
+                const BASES: [&str; 3] = ["btc", "eth", "sol"];
+                let defs: Vec<(usize, &str, &str)> = (0..n)
+                    .flat_map(|e| (0..=(e % 3)).map(move |j| (e, BASES[j], "usdt")))
+                    .collect();
                 let instruments = build_instruments(&defs);
                 built = Some(build_engine(&instruments, &[], TradingState::Disabled));
                 observe(&built.as_ref().unwrap().engine, lines);
@@ -94,6 +100,24 @@ fn run() {
                         side: Side::Buy,
                     }),
                 })),
+                // every kind of account item heals the account link: alternate balance snapshots and trades
+                "acc" if k % 2 == 1 => {
+                    let ex = exchange_index_of(engine, arg);
+                    EngineEvent::Account(AccountStreamEvent::Item(AccountEvent {
+                        exchange: ExchangeIndex(ex),
+                        kind: AccountEventKind::Trade(barter_execution::trade::Trade {
+                            id: barter_execution::trade::TradeId::new(format!("t{k}")),
+                            order_id: barter_execution::order::id::OrderId::new(format!("o{k}")),
+                            instrument: InstrumentIndex(instrument_of(engine, arg)),
+                            strategy: barter_execution::order::id::StrategyId::new("verif"),
+                            time_exchange: time,
+                            side: Side::Buy,
+                            price: Decimal::ONE_HUNDRED,
+                            quantity: Decimal::ONE,
+                            fees: barter_execution::trade::AssetFees::quote_fees(Decimal::ZERO),
+                        }),
+                    }))
+                }
                 "acc" => {
                     let ex = exchange_index_of(engine, arg);
                     EngineEvent::Account(AccountStreamEvent::Item(AccountEvent {
@@ -132,7 +156,7 @@ fn instrument_of(engine: &TestEngine, e: usize) -> usize {
         .instruments
         .0
         .values()
-        .position(|s| s.instrument.exchange == ExchangeIndex(ex))
+        .rposition(|s| s.instrument.exchange == ExchangeIndex(ex))
         .unwrap()
 }
 
@@ -199,7 +223,7 @@ fn generate(seed: u64, n_cases: usize, tier: &str) {
     for _ in 0..n_cases {
         id += 1;
         out.case(format!("r{id}"));
-        let n = rng.range(1, 4) as usize;
+        let n = rng.range(1, 5) as usize;
         out.line(format!("init {n}"));
         let len = rng.range(0, if tier == "thorough" { 80 } else { 40 });
         // bias: mostly items so that all-healthy states are reached, then notices
